@@ -91,7 +91,7 @@ PROPS = {
         "title": "Supply changes only by scheduled mint minus configured burn",
         "model": "Minter.v begin_block; Distributor.v bank (transfer, burn), dist_begin_block; Vest.v step (bank part)",
         "runs": [app(100, 5000), distr("", 120, 5000), vest("", 40, 2000)],
-        "preds": ["C01.", "C03.conservation"],
+        "preds": ["C01.", "C03.conservation", "C03.state_sum_equals_balance"],   # books above the balance = coins booked (and burned from) that were never collected
         "rule": APP_RULE + " | module-mode distributor and vesting generators as for C03 / C05",
         "level_text": "Coq theorems: the minter's block adds exactly the minted amount (the growth of the schedule counters) to the supply; one whole "
                       "distributor BeginBlock conserves, per denomination, the sum of all balances plus everything burned (induction over sources, "
@@ -363,7 +363,8 @@ PROPS = {
                  "migrate_vesting_params_v3, share_from_percent, conv_periodic",
         "runs": [{"kind": "upgrade", "profile": "", "n_quick": 300, "n_thorough": 10000, "per_shard": 20, "env": {"TZ": "UTC"}},
                  {"kind": "upgrade", "profile": "tz", "n_quick": 150, "n_thorough": 5000, "per_shard": 20, "env": {"TZ": "Europe/Warsaw"}},
-                 {"kind": "migrate", "profile": "", "n_quick": 400, "n_thorough": 12000, "per_shard": 200}],
+                 {"kind": "migrate", "profile": "", "n_quick": 400, "n_thorough": 12000, "per_shard": 200},
+                 {"kind": "upgrade", "profile": "handler", "n_quick": 150, "n_thorough": 5000, "per_shard": 20, "env": {"TZ": "UTC"}}],
         "preds": ["C16."],
         "rule": "pre-upgrade stores generated from (VERIF_SEED, index): 0-4 owners incl./excl. the hard-coded pool owner, pools written in the legacy (v2) "
                 "protobuf format with random sent / withdrawn histories, the validators pool with currently-locked exactly the split sum, one below, decided "
@@ -378,9 +379,12 @@ PROPS = {
                 "x/params subspaces, the module's own Migrator.Migrate2to3 runs, and the parameters the keeper then returns are compared with the Coq "
                 "model; the minter state is written with the legacy protobuf type and read back through the keeper; three blocks are minted under the "
                 "migrated parameters and compared with an exact-rational schedule computed from the legacy values; the v1.1.0 percent and "
-                "periodic-reduction conversions run through the real v2.MigrateParams on amino-JSON legacy values",
-        "partial": ["the wiring inside CreateUpgradeHandler (ICA module initialisation, RunMigrations over the version map) is not executed: the "
-                    "module migrators and the three v120 functions are called directly in the handler's order"],
+                "periodic-reduction conversions run through the real v2.MigrateParams on amino-JSON legacy values | handler profile: an application whose "
+                "genesis leaves the interchain-accounts module uninitialised (as before v1.2.0), legacy pool store, parameters in x/params, module versions 2: "
+                "the registered v1.2.0 handler runs through UpgradeKeeper.ApplyUpgrade",
+        "partial": ["the handler as a whole (ICA module initialisation, RunMigrations over the version map, then the three v120 functions) is executed through "
+                    "x/upgrade's ApplyUpgrade in the `handler` profile and its result compared with the model of the pool split; the model does not contain "
+                    "x/upgrade, the module manager or the ICA module"],
         "level_text": "Coq theorems for every pre-upgrade pool list and any split constants: the v2->v3 migration keeps every pool's amounts, history and "
                       "lock period; the validators-pool split, when applied, keeps the total locked, every pre-existing pool's sent/withdrawn and lock "
                       "period, takes exactly the sum from the validators pool, appends exactly the configured pools with sent = withdrawn = 0, and "
